@@ -34,6 +34,7 @@ _MATH_FUNCS = ("acos asin atan atan2 cos sin tan acosh asinh atanh cosh sinh tan
                "log log10 log1p log2 logb modf scalbn scalbln cbrt fabs hypot pow sqrt erf erfc lgamma tgamma ceil "
                "floor nearbyint rint lrint llrint round lround llround trunc fmod remainder remquo copysign nan "
                "nextafter nexttoward fdim fmax fmin fma").split()
+MATH_FUNCS = set(_MATH_FUNCS)
 MATH_H = set(_MATH_FUNCS) | set(n + "f" for n in _MATH_FUNCS) | set(n + "l" for n in _MATH_FUNCS) | {
     "HUGE_VAL", "HUGE_VALF", "HUGE_VALL", "INFINITY", "NAN", "fpclassify", "isfinite", "isinf", "isnan", "isnormal",
     "signbit", "isgreater", "isgreaterequal", "isless", "islessequal", "islessgreater", "isunordered"}
